@@ -433,6 +433,8 @@ func genCase(t *rapid.T, conc bool) *dbCase {
 		for i := 0; i < 2; i++ {
 			g.keys = append(g.keys, fmt.Sprintf("%s:%sn%d", b.Name, g.ns, i))
 		}
+		// only the first colon separates the database name from the key: further colons belong to the key
+		g.keys = append(g.keys, b.Name+":"+g.ns+"h:alpha", b.Name+":"+g.ns+"h:beta")
 	}
 	sort.Strings(g.keys)
 
